@@ -80,6 +80,13 @@ def c13(run):
                             "C13", workers=8, threads=8)
     run.add(tlc, s)
     run.rule += ("  ||  and every history of <= 4 keys ending in the reph key over EVERY one of the 36 consonants, hasanta and two vowel signs")
+    # impl -> spec: the reph key inside recorded fixed-layout sessions (suggestions off and on: with the list on, the first candidate
+    # must be the composed text too), incl. the same key under another plane after a correction
+    rounds = 25 if run.quick() else 250
+    tlc, s = run_record_validate(run, "session", "session", "Trace_Session.tla", "C13", "compose", rounds, shards=12, focus="C13", unit="new", timeout=6000)
+    run.add(tlc, s)
+    run.rule += ("  ||  impl -> spec: 12 x %d recorded sessions validated against Trace_Session with Focus=C13 (the composition conjunct for every key, the reph key "
+                 "among them; with the list on the first candidate must be the composed text)" % rounds)
     # deep syllables: histories generated by the syllable grammar (conjuncts of many members)
     dd = 9 if run.quick() else 11
     tlc, s = run_tlc_replay(run, "MC_Reph_deep", "MC_Fixed.tla",
